@@ -251,6 +251,8 @@ for _p in ("C01", "C15", "C19"):
 for _p in ("C01", "C06", "C14"):
     CLAIMED[_p]["technique"] += (" OFFSET-FREE: cone scan (function, resolved callees, referenced module tables and lambdas) of the value extractor shared by absolute "
                                  "temperatures and the temperature difference dt_cont - no additive constant may be applied to the extracted value.")
+CLAIMED["C07"]["technique"] += (" COL-CACHE: an `if` never decides from the contents of column K whether the routine that must-writes K runs "
+                                 "(must-write summaries with column parameters resolved per call).")
 CLAIMED["C10"]["technique"] += " DEDUP-ID: taint of input stream records into every keep-one-per-key construct (identity keys only)."
 
 NOT_APPLICABLE = {
